@@ -22,7 +22,7 @@ func checkC09(p *Prog, r *Report) {
 	r.rule("R11 splice loops: the in-place filter re-examines the position the next element moved into")
 	r.rule("C09.input-preserved (mod analysis): Range never stores into, sorts, copies over or appends onto the element list of the collection it is given")
 	r.rule("C09.non-nil: every return of Range is the address of a local (never nil)")
-	r.rule("C09.pipeline: on every path, ID selection precedes filtering, which precedes sorting, which precedes the page loop; the page loop starts at int(num*size) and runs while i < len and i < skip+int(size)")
+	r.rule("C09.pipeline: on every path, ID selection precedes filtering, which precedes sorting, which precedes the page loop; the page loop starts at int(num*size) and runs while i < len and i < skip+int(size), and the page variable receives nothing but that loop's appends")
 	r.rule("C09.impl-agreement: the two Resource implementations must use the same nil convention for nil pointer attributes (Less asserts the second value to the first value's type)")
 	r.assume("collections hold resources of one type (the library's tests pin a panic for mixed collections); sorting rules name attributes of that type; number*size < 2^63")
 	r.assume("Go's <, ==, time.Time Before/Equal and bytes.Compare are the natural total orders; sort.Sort sorts correctly given a strict weak order")
@@ -489,6 +489,31 @@ func checkRangePipeline(p *Prog, r *Report, rng *ssa.Function, pc *panicChecker)
 	}
 	r.decide(okOrder, "C09.pipeline", "Range:order", p.pos(rng.Pos()), "selection, then filter, then sort, then page, on every path",
 		"the stages of Range are not executed in the order ID selection, filter, sort, page on every path")
+	// the page variable only ever receives the window loop's appends
+	pageVars := map[*ssa.Alloc]bool{}
+	for _, pa := range pageAppends {
+		if ld, ok := pa.Call.Args[0].(*ssa.UnOp); ok {
+			if al, ok := ld.X.(*ssa.Alloc); ok {
+				pageVars[al] = true
+			}
+		}
+	}
+	for al := range pageVars {
+		for _, ref := range referrers(al) {
+			st, ok := ref.(*ssa.Store)
+			if !ok || st.Addr != ssa.Value(al) {
+				continue
+			}
+			good := isNilConst(st.Val)
+			for _, pa := range pageAppends {
+				if st.Val == ssa.Value(pa) {
+					good = true
+				}
+			}
+			r.decide(good, "C09.pipeline", "Range:page-store:"+p.describe(st), p.pos(st.Pos()), "the page is only extended by the window loop",
+				"the page returned by Range is assigned a value other than the window loop's appends (a whole list, say): positions outside [num*size, (num+1)*size) are returned, so consecutive pages overlap")
+		}
+	}
 	// the element appended to the page is col.col[i] with i the page-loop counter
 	bf := pc.bf(rng)
 	for _, pa := range pageAppends {
